@@ -63,6 +63,8 @@ type VerifStep struct {
 	// Changed intervals reported by the changelog, as file offsets
 	// (-1 for an invalid position).
 	Intervals [][2]int
+	// The spans recorded as changed and as unchanged (same encoding).
+	Changed, Unchanged [][2]int
 	// Offsets and texts of all comments before and after the cleanup that
 	// follows the change.
 	CommentsBefore, CommentsAfter []VerifComment
@@ -153,6 +155,13 @@ loop:
 			snap = snap.Diff(fout, cl)
 			for _, iv := range cl.ChangedIntervals() {
 				st.Intervals = append(st.Intervals, [2]int{off(iv.Start), off(iv.End)})
+			}
+			chg, unchg := cl.VerifSets()
+			for _, iv := range chg {
+				st.Changed = append(st.Changed, [2]int{off(iv.Start), off(iv.End)})
+			}
+			for _, iv := range unchg {
+				st.Unchanged = append(st.Unchanged, [2]int{off(iv.Start), off(iv.End)})
 			}
 			st.CommentsBefore = verifComments(tf, fout.Comments)
 			cleanupFilePos(fset.File(fout.Pos()), cl, fout.Comments)
